@@ -6,7 +6,7 @@
 set -u
 export GOFLAGS=-mod=mod GOPROXY=off GOSUMDB=off GOTOOLCHAIN=local
 V=$(cd "$(dirname "$0")" && pwd)
-REPO=${VERIF_REPO:-/repo}
+REPO=${VERIF_REPO:-/repo}; export VERIF_REPO="$REPO"
 n=64
 if [ "${1:-}" = "-n" ]; then n=$2; shift 2; fi
 ids=${*:-C02 C06 C07 C08 C09 C10 C11 C12 C19}
